@@ -7,6 +7,7 @@
 package sym
 
 import (
+	"runtime"
 	"encoding/json"
 	"fmt"
 	"math"
@@ -152,6 +153,7 @@ func Observe(name string, v any)            {}
 func Log(format string, args ...any)        {}
 func CheckLeaks()                           {}
 func Domain(n int)                          {}
+func Yield()                                { runtime.Gosched() }
 func PoolNondet()                           {}
 func SetGOMAXPROCS(n int)                   {}
 func ReadOnly(name string, p any)           {}
